@@ -200,6 +200,7 @@ type Target struct {
 	SHints    map[string]string // Go statement source -> Gallina let-prefix ("" = drop the statement)
 	Panics    bool              // results wrapped in option; panic(...) => None
 	RetIdx    int               // for multi-value returns: which result to keep
+	File      string            // Gen file that receives the definition (default: targetFile[Out], else GenFuncs)
 	AssignRet string            // an assignment to this lvalue (source text) is the function's result
 	Renames   map[string]string // Go local/param name -> Gallina name
 }
@@ -886,7 +887,10 @@ func main() {
 	order := []string{}
 	for i := range targets {
 		tg := &targets[i]
-		f := targetFile[tg.Out]
+		f := tg.File
+		if f == "" {
+			f = targetFile[tg.Out]
+		}
 		if f == "" {
 			f = "GenFuncs"
 		}
